@@ -100,7 +100,7 @@ struct abk_instrument
  * @param playlist_offset the offset to the playlist sections.
  * @param playlist this structure is populated with the result.
  */
-static void read_abk_playlist(HIO_HANDLE *f, uint32 playlist_offset, struct abk_playlist *playlist)
+static int read_abk_playlist(HIO_HANDLE *f, uint32 playlist_offset, struct abk_playlist *playlist)
 {
     uint16 playdata;
     int arraysize;
@@ -114,6 +114,8 @@ static void read_abk_playlist(HIO_HANDLE *f, uint32 playlist_offset, struct abk_
     hio_seek(f, playlist_offset, SEEK_SET);
 
     playlist->pattern = (uint16 *) malloc(arraysize * sizeof(uint16));
+    if (playlist->pattern == NULL)
+        return -1;
 
     playdata = hio_read16b(f);
 
@@ -124,13 +126,21 @@ static void read_abk_playlist(HIO_HANDLE *f, uint32 playlist_offset, struct abk_
 
         if (playlist->length >= arraysize)
         {
+            uint16 *tmp;
             arraysize *= 2;
-            playlist->pattern = (uint16 *) realloc(playlist->pattern , arraysize * sizeof(uint16));
+            tmp = (uint16 *) realloc(playlist->pattern , arraysize * sizeof(uint16));
+            if (tmp == NULL) {
+                free(playlist->pattern);
+                playlist->pattern = NULL;
+                return -1;
+            }
+            playlist->pattern = tmp;
         }
 
         playlist->pattern[playlist->length++] = playdata;
         playdata = hio_read16b(f);
     };
+    return 0;
 }
 
 static int read_abk_song(HIO_HANDLE *f, struct abk_song *song, uint32 songs_section_offset)
@@ -381,8 +391,9 @@ static struct abk_instrument* read_abk_insts(HIO_HANDLE *f, uint32 inst_section_
     if (count < 1)
         return NULL;
 
-    inst = (struct abk_instrument*) malloc(count * sizeof(struct abk_instrument));
-    memset(inst, 0, count * sizeof(struct abk_instrument));
+    inst = (struct abk_instrument*) calloc(count, sizeof(struct abk_instrument));
+    if (inst == NULL)
+        return NULL;
 
     for (i = 0; i < count; i++)
     {
@@ -586,7 +597,10 @@ static int abk_load(struct module_data *m, HIO_HANDLE *f, const int start)
      * TODO: if the 4 channels arent in the same order then
      * we need to fail here. */
 
-    read_abk_playlist(f, song.playlist_offset[0], &playlist);
+    if (read_abk_playlist(f, song.playlist_offset[0], &playlist) < 0)
+    {
+        return -1;
+    }
 
     /* move to the start of the instruments section */
     /* then convert the patterns one at a time. there is a pattern for each channel.*/
